@@ -118,33 +118,11 @@ theorem digitChar_ne (d : Nat) (h1 : 1 ≤ d) (h : d < 10) : digitChar d ≠ '0'
   have : d = 1 ∨ d = 2 ∨ d = 3 ∨ d = 4 ∨ d = 5 ∨ d = 6 ∨ d = 7 ∨ d = 8 ∨ d = 9 := by omega
   rcases this with rfl | rfl | rfl | rfl | rfl | rfl | rfl | rfl | rfl <;> decide
 
-theorem parseUint0_of_head (c : Char) (cs : Str) (h : c ≠ '0') : parseUint0 (c :: cs) = readBase 10 (c :: cs) 0 := by
-  unfold parseUint0
-  split <;> simp_all
-
-/-- strconv.ParseUint(strconv.FormatUint(n, 10), 0, _) = n -/
-theorem parseUint0_showNat (n : Nat) : parseUint0 (showNat n) = some n := by
-  by_cases h : n = 0
-  · subst h; rw [showNat_zero]; decide
-  · obtain ⟨d, rest, h1, h2, e⟩ := showNat_head n (by omega)
-    have hr := readNat_showNat n
-    have hd := showNat_digits n
-    rw [e] at hr hd ⊢
-    rw [parseUint0_of_head _ _ (digitChar_ne d h1 h2).1, readBase10_digits _ hd]
-    simpa [readNat] using hr
-
 theorem showNat_head_ne_sign (n : Nat) : ∃ c rest, showNat n = c :: rest ∧ c ≠ '+' ∧ c ≠ '-' := by
   by_cases h : n = 0
   · subst h; exact ⟨'0', [], showNat_zero, by decide, by decide⟩
   · obtain ⟨d, rest, h1, h2, e⟩ := showNat_head n (by omega)
     exact ⟨_, rest, e, (digitChar_ne d h1 h2).2.1, (digitChar_ne d h1 h2).2.2⟩
-
-theorem parseInt0_unsigned (bits : Nat) (c : Char) (cs : Str) (h1 : c ≠ '+') (h2 : c ≠ '-') :
-    parseInt0 bits (c :: cs) = match parseUint0 (c :: cs) with
-      | none => none
-      | some n => if n < 2 ^ (bits - 1) then some (Int.ofNat n) else none := by
-  unfold parseInt0
-  split <;> first | rfl | simp_all
 
 theorem readDecInt_unsigned (bits : Nat) (c : Char) (cs : Str) (h1 : c ≠ '+') (h2 : c ≠ '-') :
     readDecInt bits (c :: cs) = match readNat (c :: cs) with
@@ -152,28 +130,6 @@ theorem readDecInt_unsigned (bits : Nat) (c : Char) (cs : Str) (h1 : c ≠ '+') 
       | some n => if n < 2 ^ (bits - 1) then some (Int.ofNat n) else none := by
   unfold readDecInt
   split <;> first | rfl | simp_all
-
-/-- strconv.ParseInt(strconv.FormatInt(i, 10), 0, bits) = i for every i of that width -/
-theorem parseInt0_showInt (bits : Nat) (i : Int) (hlo : -(2 ^ (bits - 1) : Int) ≤ i) (hhi : i < (2 ^ (bits - 1) : Int)) :
-    parseInt0 bits (showInt i) = some i := by
-  cases i with
-  | ofNat n =>
-    obtain ⟨c, rest, e, h1, h2⟩ := showNat_head_ne_sign n
-    have hp := parseUint0_showNat n
-    have hn : n < 2 ^ (bits - 1) := by
-      have : (Int.ofNat n) < ((2 ^ (bits - 1) : Nat) : Int) := by simpa using hhi
-      exact Int.ofNat_lt.mp this
-    simp only [showInt]
-    rw [e] at hp ⊢
-    rw [parseInt0_unsigned bits c rest h1 h2, hp]
-    simp [hn]
-  | negSucc n =>
-    have hp := parseUint0_showNat (n + 1)
-    have hn : n + 1 ≤ 2 ^ (bits - 1) := by
-      have : -((2 ^ (bits - 1) : Nat) : Int) ≤ Int.negSucc n := by simpa using hlo
-      omega
-    simp only [showInt, parseInt0, hp]
-    simp [hn, Int.negSucc_eq]
 
 /-- the specification's base-ten reader on the canonical text -/
 theorem readDecInt_showInt (bits : Nat) (i : Int) (hlo : -(2 ^ (bits - 1) : Int) ≤ i) (hhi : i < (2 ^ (bits - 1) : Int)) :
@@ -235,17 +191,34 @@ theorem readBase10_eq (s : Str) (acc : Nat) : readBase 10 s acc = readNatAux s a
       · simp [hd] at h; simp [hd, ← h, ih]
       · simp [hd] at h; simp [hd, ← h]
 
-theorem parseUint0_eq_readNat (r : Str) (h : ∀ c cs, r ≠ '0' :: c :: cs) : parseUint0 r = readNat r := by
-  match r, h with
-  | [], _ => rfl
-  | [c], _ =>
-    by_cases hc : c = '0'
-    · subst hc; decide
-    · rw [parseUint0_of_head c [] hc, readBase10_eq]; rfl
-  | c :: d :: rest, h =>
-    have hc : c ≠ '0' := by intro e; subst e; exact h d rest rfl
-    rw [parseUint0_of_head c _ hc, readBase10_eq]; rfl
 
+theorem parseUint10_eq_readNat (s : Str) : parseUint10 s = readNat s := by
+  cases s with
+  | nil => rfl
+  | cons c cs => simp [parseUint10, readNat, readBase10_eq]
+
+theorem parseInt10_unsigned (bits : Nat) (c : Char) (cs : Str) (h1 : c ≠ '+') (h2 : c ≠ '-') :
+    parseInt10 bits (c :: cs) = match parseUint10 (c :: cs) with
+      | none => none
+      | some n => if n < 2 ^ (bits - 1) then some (Int.ofNat n) else none := by
+  unfold parseInt10
+  split <;> first | rfl | simp_all
+
+/-- the model of strconv.ParseInt(·, 10, bits) is the specification's base-ten reader, on every text -/
+theorem parseInt10_eq_readDecInt (bits : Nat) (s : Str) : parseInt10 bits s = readDecInt bits s := by
+  cases s with
+  | nil => rfl
+  | cons c r =>
+    by_cases h1 : c = '+'
+    · subst h1; simp [parseInt10, readDecInt, parseUint10_eq_readNat]
+    · by_cases h2 : c = '-'
+      · subst h2; simp [parseInt10, readDecInt, parseUint10_eq_readNat]
+      · rw [parseInt10_unsigned bits c r h1 h2, readDecInt_unsigned bits c r h1 h2, parseUint10_eq_readNat]
+
+/-- strconv.ParseInt(strconv.FormatInt(i, 10), 10, bits) = i for every i of that width -/
+theorem parseInt10_showInt (bits : Nat) (i : Int) (hlo : -(2 ^ (bits - 1) : Int) ≤ i) (hhi : i < (2 ^ (bits - 1) : Int)) :
+    parseInt10 bits (showInt i) = some i := by
+  rw [parseInt10_eq_readDecInt]; exact readDecInt_showInt bits i hlo hhi
 
 theorem showInt_free (i : Int) (c : Char) (hm : c ≠ '-') (hc : ∀ d, d < 10 → c ≠ digitChar d) : c ∉ showInt i := by
   cases i with
